@@ -377,7 +377,7 @@ def parseHC (h c : String) : Option (Nat × Nat) :=
   | _, _ => none
 
 def flags (s : LState) : String :=
-  s!"stale-root={s.staleRootOk} stale-any={s.staleAnyOk} alias={s.aliasViol} leaked={s.leaked} orphaned={s.orphaned}"
+  s!"stale-root={s.staleRootOk} stale-any={s.staleAnyOk} alias={s.aliasViol} alias-direct={s.aliasDirect} leaked={s.leaked} orphaned={s.orphaned}"
 
 def showLOut : LOut → String
   | .handles hs => "ok " ++ " ".intercalate (hs.map (fun h => s!"h{h}"))
@@ -439,6 +439,64 @@ def processLine (pol : Policy) (s : LState) (l : String) : LState × Option Stri
       | _ => (s, some "bad parse")
     | _ => let (s', o) := lendLine pol s toks; (s', some o)
 
+
+/-! ## lending-script generation from the model's own state (every choice from one LCG state) -/
+
+def lcg (x : UInt64) : UInt64 := x * 6364136223846793005 + 1442695040888963407
+
+def pick (rng : UInt64) (n : Nat) : Nat × UInt64 :=
+  let r := lcg rng
+  (((r >>> 33).toNat) % (max n 1), r)
+
+def liveCopies (s : LState) : List (Nat × Nat) :=
+  (s.handles.zipIdx.flatMap fun (h, i) => h.copies.map fun c => (i, c))
+
+def genScript (seed : UInt64) (len : Nat) : List String × UInt64 := Id.run do
+  let mut rng := seed
+  let mut s : LState := {}
+  let mut out : List String := ["reset"]
+  let emit (s : LState) (l : String) : LState :=
+    (lendLine .asFound s ((l.splitOn " ").filter (· ≠ ""))).1
+  -- first call
+  let (k0, r0) := pick rng 4
+  rng := r0
+  let first := match k0 with | 0 => "lend ro" | 1 => "lend rw ro" | _ => "lend rw"
+  s := emit s first; out := first :: out
+  for _ in List.range len do
+    let live := liveCopies s
+    let (r, rng1) := pick rng 100
+    rng := rng1
+    let (j, rng2) := pick rng live.length
+    rng := rng2
+    let (h, c) := live.getD j (0, 0)
+    let (z, rng3) := pick rng 1000
+    rng := rng3
+    let line : String :=
+      if live.isEmpty || r < 4 then
+        (if s.frames.length < 3 then (match z % 5 with | 0 => "lend ro" | 1 => "lend rw rw" | 2 => "lend rw ro rw" | _ => "lend rw") else s!"get h{h} c{c}")
+      else if r < 11 then (if s.frames.isEmpty then s!"get h{h} c{c}" else "end")
+      else if r < 32 then s!"copy h{h} c{c} {places.getD (z % places.length) "global"}"
+      else if r < 42 then s!"drop h{h} c{c}"
+      else if r < 60 then s!"get h{h} c{c}"
+      else if r < 68 then s!"getro h{h} c{c}"
+      else if r < 76 then s!"set h{h} c{c} {z}"
+      else s!"derive h{h} c{c} {if z % 4 == 0 then "ro" else "rw"}"
+    s := emit s line; out := line :: out
+  -- return from every call, then use everything that was stashed, also from inside a later call
+  for _ in List.range s.frames.length do
+    s := emit s "end"; out := "end" :: out
+  for (h, c) in (liveCopies s).take 12 do
+    let (z, rng4) := pick rng 3
+    rng := rng4
+    let l := match z with | 0 => s!"set h{h} c{c} 7" | 1 => s!"getro h{h} c{c}" | _ => s!"get h{h} c{c}"
+    s := emit s l; out := l :: out
+  s := emit s "lend rw"; out := "lend rw" :: out
+  for (h, c) in (liveCopies s).take 6 do
+    let l := s!"get h{h} c{c}"
+    s := emit s l; out := l :: out
+  out := "end" :: out
+  return (out.reverse, rng)
+
 partial def loop (pol : Policy) (h : IO.FS.Stream) (s : LState) : IO Unit := do
   let l ← h.getLine
   if l.isEmpty then return ()
@@ -449,6 +507,17 @@ partial def loop (pol : Policy) (h : IO.FS.Stream) (s : LState) : IO Unit := do
   loop pol h s'
 
 def mainC20 (args : List String) : IO Unit := do
+  match args with
+  | ["gen", seed, count, len] =>
+    let mut rng : UInt64 := UInt64.ofNat seed.toNat! * 2654435761 + 88172645463325252
+    for _ in List.range count.toNat! do
+      let (ln, rng1) := pick rng len.toNat!
+      let (sc, rng2) := genScript rng1 (ln + 6)
+      rng := rng2
+      for l in sc do IO.println l
+      IO.println "----"
+    return ()
+  | _ => pure ()
   let pol := if args.contains "tomark" then Policy.toMark else Policy.asFound
   loop pol (← IO.getStdin) {}
 
